@@ -221,6 +221,8 @@ def show(t):
         return "%s()" % t[1]
     if k == "hdr":
         return "header[%s]" % show(t[1])
+    if k == "lv":
+        return "%s@loop%s" % (t[2], t[1])
     return repr(t)
 
 
@@ -659,8 +661,36 @@ class SymFlow:
     on_stmt_done(st, block, idx, stmt) optional; on_return(st, stmt) optional."""
 
     def __init__(self, fn, on_call=None, on_return=None, on_branch=None, max_states=20000, bool_calls=(),
-                 on_stmt_done=None):
+                 on_stmt_done=None, widen=False, on_widen=None):
         from .flow import Flow
+        self.on_widen = on_widen
+        from .ir import walk as _walk, strip_casts as _sc
+        self.widen = {}
+        if widen:
+            # loop header -> local variables assigned inside the loop: replaced by an opaque
+            # per-loop symbol whenever the header is entered (standard widening, keeps terms finite)
+            for (hdr, body) in fn.loops():
+                mod = set()
+                for bid in body:
+                    for stt in fn.blocks[bid].stmts:
+                        for n in _walk(stt):
+                            tgt = None
+                            if n["k"] == "asg":
+                                tgt = _sc(n["l"])
+                            elif n["k"] == "un" and ("++" in n["op"] or "--" in n["op"]):
+                                tgt = _sc(n["e"])
+                            elif n["k"] == "decl":
+                                mod.add(n["name"])
+                            elif n["k"] == "call":
+                                for a in n["args"]:
+                                    a2 = _sc(a)
+                                    if a2 is not None and a2["k"] == "un" and a2["op"] == "&":
+                                        t2 = _sc(a2["e"])
+                                        if t2 is not None and t2["k"] == "ref":
+                                            mod.add(t2["name"])
+                            if tgt is not None and tgt["k"] == "ref" and tgt.get("decl") in ("local", "param"):
+                                mod.add(tgt["name"])
+                self.widen[hdr] = sorted(mod)
         self.fn = fn
         self.on_call = on_call
         self.on_return = on_return
@@ -715,6 +745,13 @@ class SymFlow:
                 outs.append(s2)
         res = []
         for s2 in outs:
+            if self.widen:
+                w = set(s2.tags.get("__w", ()))
+                for ev in s2.events:
+                    if ev[0] == "write":
+                        w.add(norm(ev[1]))
+                if w:
+                    s2.tags["__w"] = tuple(sorted(w, key=repr))
             if self.on_stmt_done is not None:
                 self.on_stmt_done(s2, b, i, stmt, self)
             s2.ret = None if stmt["k"] != "ret" else s2.ret
@@ -722,6 +759,22 @@ class SymFlow:
         return res
 
     def _edge(self, fz, b, to, on):
+        r = self._edge0(fz, b, to, on)
+        if r is not None and to in self.widen and self.widen[to]:
+            st = FState.thaw(r)
+            for v in self.widen[to]:
+                st.env[v] = ("lv", to, v)
+            st.env.pop("__cond__", None)
+            # memory written since the last widening gets an opaque per-loop value
+            for loc in st.tags.pop("__w", ()):
+                if loc in st.mem:
+                    st.mem[loc] = ("hv", to, loc)
+            if self.on_widen is not None:
+                self.on_widen(st, to)
+            return st.freeze()
+        return r
+
+    def _edge0(self, fz, b, to, on):
         if on not in ("true", "false") or not b.term or b.term.get("ci", -1) < 0:
             if on.startswith("case:") or on == "default":
                 st = FState.thaw(fz)
